@@ -210,9 +210,15 @@ def specNat (s : Bytes) : Option Nat :=
 /-- decimal integer text: optional sign, then at least one digit (leading zeros allowed) -/
 def specParse (s : Bytes) : Option Int :=
   match s with
-  | 45 :: r => (specNat r).map (fun v => -(v : Int))
-  | 43 :: r => (specNat r).map (fun v => (v : Int))
-  | _ => (specNat s).map (fun v => (v : Int))
+  | 45 :: r => match specNat r with
+    | some v => some (-(v : Int))
+    | none => none
+  | 43 :: r => match specNat r with
+    | some v => some (v : Int)
+    | none => none
+  | _ => match specNat s with
+    | some v => some (v : Int)
+    | none => none
 
 /-- rows of integers joined by `sep` -/
 def specJoin (rows : List (List Int)) (sep : Nat) (keepLast : Bool) : List Bytes :=
